@@ -153,6 +153,25 @@ pub fn trace_scenario(lines: &[String]) -> Vec<String> {
     t
 }
 
+/// the crate's thin public wrappers get their share of the calls: a third of the single-partition fetches go through
+/// `fetch_messages_for_partition`, a third of the single-offset commits through `commit_offset`, a fifth of the polls are
+/// followed by `consume_messageset` on everything delivered (chosen by a hash of the line, so the generators' random
+/// streams are not disturbed)
+fn via_wrapper(prop: &str, pos: usize, line: &str, dist: &mut BTreeMap<String, u64>) -> String {
+    let toks: Vec<&str> = line.split(' ').collect();
+    let hsh = fnv(&format!("{}#{}", line, pos));
+    let out = match toks.as_slice() {
+        ["OP", tgt, "fetch_messages", t, p, o, m] if hsh % 3 == 0 => format!("OP {} fetch_for_partition {} {} {} {}", tgt, t, p, o, m),
+        ["OP", tgt, "commit_offsets", g, t, p, o] if hsh % 3 == 0 => format!("OP {} commit_offset {} {} {} {}", tgt, g, t, p, o),
+        ["OP", "poll"] if hsh % 5 == 0 && (prop == "C08" || prop == "C01" || prop == "C19") => "OP poll_mark".to_string(),
+        _ => line.to_string(),
+    };
+    if out != line {
+        *dist.entry("via-thin-wrapper".to_string()).or_insert(0) += 1;
+    }
+    out
+}
+
 pub fn run(prop: &str, tier: &str, seed: u64, corpus: &[Vec<String>]) -> Report {
     let gen = generator(prop).expect("no generator for property");
     let n = budget(prop, tier);
@@ -171,7 +190,8 @@ pub fn run(prop: &str, tier: &str, seed: u64, corpus: &[Vec<String>]) -> Report 
     let mut scenarios: Vec<Vec<String>> = corpus.to_vec();
     for i in 0..n {
         let mut r = rng.fork();
-        scenarios.push(gen(&mut r, &mut rep.dist, i));
+        let sc = gen(&mut r, &mut rep.dist, i);
+        scenarios.push(sc.into_iter().enumerate().map(|(k, l)| via_wrapper(prop, k, &l, &mut rep.dist)).collect());
     }
     let running = std::env::var("KH_RUNNING_FILE").ok();
     for sc in scenarios {
